@@ -43,6 +43,16 @@ pub mod sha256 {
         pub fn engine() -> (e: HashEngine) ensures e.f@ == Seq::<u8>::empty() { unimplemented!() }
         #[verifier::external_body]
         pub fn from_engine(e: HashEngine) -> (r: Hash) ensures r@ == super::sha256_spec(e.f@) { unimplemented!() }
+        /// `sha256::Hash::hash(data)`
+        #[verifier::external_body]
+        pub fn hash(data: &[u8]) -> (r: Hash) ensures r@ == super::sha256_spec(data@) { unimplemented!() }
+        /// `AsRef<[u8]>::as_ref`: the 32 digest bytes
+        #[verifier::external_body]
+        pub fn as_ref(&self) -> (r: &[u8]) ensures r@ == self@ { unimplemented!() }
+        #[verifier::external_body]
+        pub fn to_byte_array(self) -> (r: [u8; 32]) ensures r@ == self@ { unimplemented!() }
+        #[verifier::external_body]
+        pub fn from_byte_array(b: [u8; 32]) -> (r: Hash) ensures r@ == b@ { unimplemented!() }
     }
 }
 pub mod sha256d {
@@ -55,6 +65,16 @@ pub mod sha256d {
         pub open spec fn view(&self) -> Seq<u8> { self.bytes@ }
         #[verifier::external_body]
         pub fn engine() -> (e: HashEngine) ensures e.f@ == Seq::<u8>::empty() { unimplemented!() }
+        #[verifier::external_body]
+        pub fn from_engine(e: HashEngine) -> (r: Hash) ensures r@ == super::sha256d_spec(e.f@) { unimplemented!() }
+        #[verifier::external_body]
+        pub fn hash(data: &[u8]) -> (r: Hash) ensures r@ == super::sha256d_spec(data@) { unimplemented!() }
+        #[verifier::external_body]
+        pub fn as_ref(&self) -> (r: &[u8]) ensures r@ == self@ { unimplemented!() }
+        #[verifier::external_body]
+        pub fn to_byte_array(self) -> (r: [u8; 32]) ensures r@ == self@ { unimplemented!() }
+        #[verifier::external_body]
+        pub fn from_byte_array(b: [u8; 32]) -> (r: Hash) ensures r@ == b@ { unimplemented!() }
     }
     impl HashEngine {
         #[verifier::external_body]
